@@ -33,9 +33,148 @@ func (P *Program) callees(c ssa.CallInstruction) []*ssa.Function {
 	if f := staticCallee(c); f != nil {
 		return []*ssa.Function{f}
 	}
+	if fs := localFuncSliceCallees(c); fs != nil {
+		return fs
+	}
 	out := append([]*ssa.Function(nil), P.calleesOf[c]...)
 	sort.Slice(out, func(i, j int) bool { return FuncKey(out[i]) < FuncKey(out[j]) })
 	return out
+}
+
+// localFuncSliceCallees refines the call graph for the "todo list" idiom: a call of an element of a
+// local slice of functions (possibly captured by reference in a closure) whose only writes are
+// `cell = append(cell, closure...)` in the declaring function. VTA models slice elements per type and
+// would merge all such lists of the package. Returns nil when the idiom is not recognised.
+func localFuncSliceCallees(c ssa.CallInstruction) []*ssa.Function {
+	cc := c.Common()
+	if cc.IsInvoke() {
+		return nil
+	}
+	ld, ok := cc.Value.(*ssa.UnOp)
+	if !ok || ld.Op != token.MUL {
+		return nil
+	}
+	ia, ok := ld.X.(*ssa.IndexAddr)
+	if !ok {
+		return nil
+	}
+	sl, ok := ia.X.(*ssa.UnOp)
+	if !ok || sl.Op != token.MUL {
+		return nil
+	}
+	cell := resolveCell(sl.X)
+	if cell == nil {
+		return nil
+	}
+	var out []*ssa.Function
+	okAll := true
+	var checkUses func(v ssa.Value, fn *ssa.Function)
+	checkUses = func(v ssa.Value, fn *ssa.Function) {
+		for _, r := range referrersOf(v) {
+			switch u := r.(type) {
+			case *ssa.UnOp:
+				if u.Op != token.MUL {
+					okAll = false
+				}
+			case *ssa.Store:
+				if u.Addr != v {
+					okAll = false
+					continue
+				}
+				if k, isK := u.Val.(*ssa.Const); isK && k.IsNil() {
+					continue
+				}
+				ap, isCall := u.Val.(*ssa.Call)
+				if !isCall || !isCallTo(ap, "builtin:append") {
+					okAll = false
+					continue
+				}
+				if b, isLd := ap.Call.Args[0].(*ssa.UnOp); !isLd || b.X != v {
+					okAll = false
+					continue
+				}
+				s, isS := ap.Call.Args[1].(*ssa.Slice)
+				if !isS {
+					okAll = false
+					continue
+				}
+				arr, isA := s.X.(*ssa.Alloc)
+				if !isA {
+					okAll = false
+					continue
+				}
+				for _, ar := range referrersOf(arr) {
+					if ix, isIx := ar.(*ssa.IndexAddr); isIx {
+						for _, sr := range referrersOf(ix) {
+							if st, isSt := sr.(*ssa.Store); isSt {
+								switch f := st.Val.(type) {
+								case *ssa.MakeClosure:
+									out = append(out, f.Fn.(*ssa.Function))
+								case *ssa.Function:
+									out = append(out, f)
+								default:
+									okAll = false
+								}
+							}
+						}
+					}
+				}
+			case *ssa.MakeClosure:
+				cf := u.Fn.(*ssa.Function)
+				for k, b := range u.Bindings {
+					if b == v && k < len(cf.FreeVars) {
+						checkUses(cf.FreeVars[k], cf)
+					}
+				}
+			case *ssa.DebugRef:
+			default:
+				okAll = false
+			}
+		}
+	}
+	checkUses(cell, cell.Parent())
+	if !okAll || len(out) == 0 {
+		return nil
+	}
+	sort.Slice(out, func(i, j int) bool { return FuncKey(out[i]) < FuncKey(out[j]) })
+	return out
+}
+
+// resolveCell follows a captured variable to the Alloc in the declaring function.
+func resolveCell(v ssa.Value) *ssa.Alloc {
+	for depth := 0; depth < 6; depth++ {
+		switch x := v.(type) {
+		case *ssa.Alloc:
+			return x
+		case *ssa.FreeVar:
+			fn := x.Parent()
+			par := fn.Parent()
+			if par == nil {
+				return nil
+			}
+			idx := -1
+			for k, fv := range fn.FreeVars {
+				if fv == x {
+					idx = k
+				}
+			}
+			var next ssa.Value
+			n := 0
+			allInstrs(par, func(i ssa.Instruction) {
+				if mc, ok := i.(*ssa.MakeClosure); ok && mc.Fn == ssa.Value(fn) && idx >= 0 && idx < len(mc.Bindings) {
+					next = mc.Bindings[idx]
+					n++
+				}
+			})
+			if n != 1 {
+				return nil
+			}
+			v = next
+		default:
+			return nil
+		}
+	}
+	return nil
 }
 
 // calleeName returns a printable name of the callee: module functions by FuncKey,
